@@ -340,7 +340,15 @@ def judgeStep (s : JS) (models : List (Nat × Router)) (idx : Nat) (op : Op) (im
   let (implCore, implF) := match implCore.splitOn " F=" with | [a, b] => (a, some b) | _ => (implCore, none)
   let (modelCore, modelF) := match modelCore.splitOn " F=" with | [a, b] => (a, some b) | _ => (modelCore, none)
   let s := match implF, modelF with
-    | some a, some b => s.bump (if a == b then "dump.hidden-state.equal" else "dump.hidden-state.differs")
+    | some a, some b =>
+      if a == b then s.bump "dump.hidden-state.equal"
+      else
+        -- known deviation of the model: a catch-all child is built by the crate with `needs_optimization: false` and is
+        -- never optimised (flags stay 000); the model builds it as a dirty leaf, which `optimize` then cleans (110).
+        -- Nothing reads the flags of a catch-all node. Entries of kind e / ec are masked before the second comparison.
+        let kinds := (implCore.splitOn ";").map (fun (e : String) => match e.splitOn "," with | _ :: k :: _ => k | _ => "")
+        let mask (f : String) := ((f.splitOn ";").zip kinds).map (fun ((x, k) : String × String) => if k == "e" || k == "ec" then "---" else x)
+        s.bump (if mask a == mask b then "dump.hidden-state.equal-but-catch-all-leaves" else "dump.hidden-state.differs")
     | _, _ => s
   let dumpOff := cls == "dump" && implCore == "dump-unavailable"
   let s := if dumpOff then s.bump "dump.unavailable" else s
@@ -479,6 +487,12 @@ def judgeStep (s : JS) (models : List (Nat × Router)) (idx : Nat) (op : Op) (im
         | some none =>
           -- C02
           let s := if nfit > 0 then s.emit s!"O {idx} C02 none although {nfit} live route(s) fit" else s
+          -- C12: a single group-free template whose leftmost-longest assignment exists must report it
+          let s := match j.live with
+            | [lt] => (match lt.exps with
+              | [(_, parts)] => if (greedy env parts path).isSome then s.emit s!"O {idx} C12 no match although the leftmost-longest assignment exists" else s
+              | _ => s)
+            | _ => s
           let s := match resToMatch (refWalk env path.length routes path []) with
             | none => s | some _ => s.emit s!"O {idx} C03 walk finds a match, implementation none"
           funObs (c06 s j env) lk
